@@ -1,6 +1,8 @@
 from plans.common import *
 
 H = "harness/c19_once_ets.cpp"
+# one small leg for the known finding that is still open (C19-call-once-saturated-arena-deadlock): expected to print its KNOWN-FINDING line
+WIT = [det("witness-saturated-arena", H, "cs-rel", 1, 3, 2, time_cap=30, args=["--witness"])]
 PLAN = dict(
     level="exploration",
     rule="case = (a) generated collaborative_call_once program: 2-6 external threads, 1-2 flags, calls made directly, inside task_arena::execute, from task_group "
@@ -14,15 +16,17 @@ PLAN = dict(
     assumptions=SC_TSO + ["scenario threads and workers stay alive for the whole case (with ets_no_key the key is the thread id and glibc recycles ids of exited threads); the thread-exit variant is not generated",
                           "'every caller sees the effects of the function' is checked as stamp order (successful completion before the return of every normal call); visibility of plain memory is not explored here (only atomics are reordered in the TSO sub-model)",
                           "the once-function never calls collaborative_call_once on the same flag (documented deadlock)",
+                          "known finding kept out of the default domain and counted (drive --witness generates it): a winner calling from inside a saturated task_arena spins for ever in ~collaborative_once_runner while its helper sleeps in task_arena::execute waiting for a slot; therefore at most slots-1 scenario threads call from inside the explicit arena, the others' arena calls are made directly",
+                          "max_allowed_parallelism=1 is not combined with an explicit arena (counted as excluded; drive --witness-allot keeps it): task_arena(1,1) then trips the allotment assertion of market::update_allotment, a worker-budget finding outside this property",
                           "the non-triviality statistic of the ETS variant reads ets_base::my_root through the object layout (vptr, my_root); verdicts never depend on it"],
-    floor=dict(quick=300, thorough=3000),
+    floor=dict(quick=500, thorough=12000),
     tiers=dict(
-        quick=[det("rel", H, "cs-rel", 16, 110, 4, tso=True, time_cap=30),
-               det("dbg", H, "cs-dbg", 16, 45, 4, tso=True, time_cap=25)],
-        thorough=[det("rel", H, "cs-rel", 16, 2500, 5, tso=True, time_cap=330),
-                  det("dbg", H, "cs-dbg", 16, 900, 5, tso=True, time_cap=240),
-                  det("enum-conflict", H, "cs-rel", 16, 30, 2, tso=True, time_cap=150, enum="conflict", enum_cap=300),
-                  det("enum-wake", H, "cs-rel", 16, 40, 2, tso=True, time_cap=100, enum="wake", enum_cap=150)],
+        quick=[det("rel", H, "cs-rel", 16, 80, 4, tso=True, time_cap=28),
+               det("dbg", H, "cs-dbg", 16, 32, 4, tso=True, time_cap=22)] + WIT,
+        thorough=[det("rel", H, "cs-rel", 16, 1500, 5, tso=True, time_cap=230),
+                  det("dbg", H, "cs-dbg", 16, 500, 5, tso=True, time_cap=150),
+                  det("enum-conflict", H, "cs-rel", 16, 20, 2, tso=True, time_cap=90, enum="conflict", enum_cap=300),
+                  det("enum-wake", H, "cs-rel", 16, 30, 2, tso=True, time_cap=70, enum="wake", enum_cap=150)] + WIT,
     ),
 )
 TEXT = dict(
